@@ -105,7 +105,7 @@ theorem unobserve_all_all {r : Reg Sub} (ok : RegOK r) (alive : Sub → Bool) (h
 
 /-! ### the remembered parents (flattened dict of dicts) -/
 
-theorem mem_insertAfterGroup (own : PRef → Nat) (o : Nat) (e x : PRef × Int) (ps : List (PRef × Int)) :
+theorem mem_insertAfterGroup (own : PRef → Nat) (o : Nat) (e x : PRef × V) (ps : List (PRef × V)) :
     x ∈ insertAfterGroup own o e ps ↔ x = e ∨ x ∈ ps := by
   induction ps with
   | nil => simp [insertAfterGroup]
@@ -134,7 +134,7 @@ theorem mem_insertAfterGroup (own : PRef → Nat) (o : Nat) (e x : PRef × Int) 
         · exact Or.inr (Or.inr h)
 
 /-- membership after `parents[owner][name] = value` -/
-theorem mem_insertParent (own : PRef → Nat) (r : PRef) (v : Int) (ps : List (PRef × Int)) (x : PRef × Int) :
+theorem mem_insertParent (own : PRef → Nat) (r : PRef) (v : V) (ps : List (PRef × V)) (x : PRef × V) :
     x ∈ insertParent own r v ps ↔ x = (r, v) ∨ (x ∈ ps ∧ x.1 ≠ r) := by
   unfold insertParent
   split
@@ -164,8 +164,8 @@ theorem mem_insertParent (own : PRef → Nat) (r : PRef) (v : Int) (ps : List (P
       · exact Or.inr h
 
 /-- if the remembered value of `r` (if any) is already `v`, the assignment just adds the pair -/
-theorem mem_insertParent_consistent (own : PRef → Nat) (r : PRef) (v : Int) (ps : List (PRef × Int))
-    (hc : ∀ e ∈ ps, e.1 = r → e.2 = v) (x : PRef × Int) :
+theorem mem_insertParent_consistent (own : PRef → Nat) (r : PRef) (v : V) (ps : List (PRef × V))
+    (hc : ∀ e ∈ ps, e.1 = r → e.2 = v) (x : PRef × V) :
     x ∈ insertParent own r v ps ↔ x = (r, v) ∨ x ∈ ps := by
   rw [mem_insertParent]
   constructor
@@ -184,25 +184,25 @@ theorem mem_insertParent_consistent (own : PRef → Nat) (r : PRef) (v : Int) (p
 
 /-- a function that only reads -/
 inductive Pure : Tree → Prop
-  | ret (v : Int) : Pure (.ret v)
-  | read (k : Key) (cont : Int → Tree) (h : ∀ x, Pure (cont x)) : Pure (.read k cont)
-  | readC (c : Nat) (cont : Int → Tree) (h : ∀ x, Pure (cont x)) : Pure (.readC c cont)
+  | ret (v : V) : Pure (.ret v)
+  | read (k : Key) (cont : V → Tree) (h : ∀ x, Pure (cont x)) : Pure (.read k cont)
+  | readC (c : Nat) (cont : V → Tree) (h : ∀ x, Pure (cont x)) : Pure (.readC c cont)
   | fail : Pure .fail
 
 /-- every Computable the function may read was defined before `b` (has a smaller index) -/
 inductive Ranked (b : Nat) : Tree → Prop
-  | ret (v : Int) : Ranked b (.ret v)
-  | read (k : Key) (cont : Int → Tree) (h : ∀ x, Ranked b (cont x)) : Ranked b (.read k cont)
-  | readC (c : Nat) (cont : Int → Tree) (hc : c < b) (h : ∀ x, Ranked b (cont x)) : Ranked b (.readC c cont)
-  | write (k : Key) (v : Int) (t : Tree) (h : Ranked b t) : Ranked b (.write k v t)
+  | ret (v : V) : Ranked b (.ret v)
+  | read (k : Key) (cont : V → Tree) (h : ∀ x, Ranked b (cont x)) : Ranked b (.read k cont)
+  | readC (c : Nat) (cont : V → Tree) (hc : c < b) (h : ∀ x, Ranked b (cont x)) : Ranked b (.readC c cont)
+  | write (k : Key) (v : V) (t : Tree) (h : Ranked b t) : Ranked b (.write k v t)
   | fail : Ranked b .fail
 
 /-- the keys a function reads as plain Observables satisfy `ok` (they are not Computable slots) -/
 inductive ObsKeys (ok : Key → Prop) : Tree → Prop
-  | ret (v : Int) : ObsKeys ok (.ret v)
-  | read (k : Key) (cont : Int → Tree) (hk : ok k) (h : ∀ x, ObsKeys ok (cont x)) : ObsKeys ok (.read k cont)
-  | readC (c : Nat) (cont : Int → Tree) (h : ∀ x, ObsKeys ok (cont x)) : ObsKeys ok (.readC c cont)
-  | write (k : Key) (v : Int) (t : Tree) (h : ObsKeys ok t) : ObsKeys ok (.write k v t)
+  | ret (v : V) : ObsKeys ok (.ret v)
+  | read (k : Key) (cont : V → Tree) (hk : ok k) (h : ∀ x, ObsKeys ok (cont x)) : ObsKeys ok (.read k cont)
+  | readC (c : Nat) (cont : V → Tree) (h : ∀ x, ObsKeys ok (cont x)) : ObsKeys ok (.readC c cont)
+  | write (k : Key) (v : V) (t : Tree) (h : ObsKeys ok t) : ObsKeys ok (.write k v t)
   | fail : ObsKeys ok .fail
 
 /-- `k` is the attribute slot of some defined Computable -/
@@ -335,22 +335,22 @@ theorem StaticEq.of_setReg {s : St} {o : Nat} {r : Reg Sub} (hd : r.decls = (s.r
 /-! ### the dynamic invariant -/
 
 /-- following the function along the listed (reference, value) reads leads to `ret v` -/
-inductive PathR : Tree → List (PRef × Int) → Int → Prop
-  | ret (v : Int) : PathR (.ret v) [] v
-  | read (k : Key) (cont : Int → Tree) (x : Int) (ps : List (PRef × Int)) (v : Int) (h : PathR (cont x) ps v) :
+inductive PathR : Tree → List (PRef × V) → V → Prop
+  | ret (v : V) : PathR (.ret v) [] v
+  | read (k : Key) (cont : V → Tree) (x : V) (ps : List (PRef × V)) (v : V) (h : PathR (cont x) ps v) :
       PathR (.read k cont) ((.obs k, x) :: ps) v
-  | readC (c : Nat) (cont : Int → Tree) (x : Int) (ps : List (PRef × Int)) (v : Int) (h : PathR (cont x) ps v) :
+  | readC (c : Nat) (cont : V → Tree) (x : V) (ps : List (PRef × V)) (v : V) (h : PathR (cont x) ps v) :
       PathR (.readC c cont) ((.comp c, x) :: ps) v
 
 /-- the listed (reference, value) reads are an initial part of some way through the function -/
-inductive Prefix : Tree → List (PRef × Int) → Prop
+inductive Prefix : Tree → List (PRef × V) → Prop
   | nil (t : Tree) : Prefix t []
-  | read (k : Key) (cont : Int → Tree) (x : Int) (ps : List (PRef × Int)) (h : Prefix (cont x) ps) :
+  | read (k : Key) (cont : V → Tree) (x : V) (ps : List (PRef × V)) (h : Prefix (cont x) ps) :
       Prefix (.read k cont) ((.obs k, x) :: ps)
-  | readC (c : Nat) (cont : Int → Tree) (x : Int) (ps : List (PRef × Int)) (h : Prefix (cont x) ps) :
+  | readC (c : Nat) (cont : V → Tree) (x : V) (ps : List (PRef × V)) (h : Prefix (cont x) ps) :
       Prefix (.readC c cont) ((.comp c, x) :: ps)
 
-theorem PathR.prefix {t : Tree} {ps : List (PRef × Int)} {v : Int} (h : PathR t ps v) : Prefix t ps := by
+theorem PathR.prefix {t : Tree} {ps : List (PRef × V)} {v : V} (h : PathR t ps v) : Prefix t ps := by
   induction h with
   | ret v => exact .nil _
   | read k cont x ps v _ ih => exact .read k cont x ps ih
@@ -358,7 +358,7 @@ theorem PathR.prefix {t : Tree} {ps : List (PRef × Int)} {v : Int} (h : PathR t
 
 /-- the remembered value `v` of `p` is the present one (`P` = Computeds that were just marked dirty and whose
     own subscribers have not all been notified yet) -/
-def Current (P : Nat → Prop) (s : St) : PRef → Int → Prop
+def Current (P : Nat → Prop) (s : St) : PRef → V → Prop
   | .obs k, v => s.store k = v
   | .comp c, v => ∃ y, s.comps c = some y ∧ y.value = some v ∧ (y.dirty = false ∨ P c)
 
@@ -384,7 +384,7 @@ def NoP : Nat → Prop := fun _ => False
 theorem Current.of_eq {P : Nat → Prop} {s s' : St} (hst : s'.store = s.store)
     (hc : ∀ c y, s.comps c = some y → ∀ v, y.value = some v → (y.dirty = false ∨ P c) →
       ∃ y', s'.comps c = some y' ∧ y'.value = some v ∧ (y'.dirty = false ∨ P c))
-    {p : PRef} {v : Int} (h : Current P s p v) : Current P s' p v := by
+    {p : PRef} {v : V} (h : Current P s p v) : Current P s' p v := by
   cases p with
   | obs k => simpa [Current, hst] using h
   | comp c =>
@@ -486,7 +486,7 @@ theorem Inv.congr {S P : Nat → Prop} {s s' : St} (inv : Inv S P s) (hc : s'.co
 
 /-- `_add_parent` called by the evaluating Computed `p` -/
 theorem addParent_spec {S P : Nat → Prop} {s s' : St} (w : Stat s) (inv : Inv S P s) {p : Nat} {x : Comp}
-    (hS : S p) (hx : s.comps p = some x) {r : PRef} {v : Int} {u : Int}
+    (hS : S p) (hx : s.comps p = some x) {r : PRef} {v : V} {u : V}
     (hrank : ∀ c', r = .comp c' → c' < p) (hobs : ∀ k, r = .obs k → ¬ s.isSlot k)
     (h : addParent s p r v = (s', .ok u)) :
     Inv S P s' ∧ StaticEq s s' ∧ s'.store = s.store ∧ s'.cur = s.cur ∧ s'.dead = s.dead ∧
@@ -758,7 +758,7 @@ theorem Inv.congr_regs {S P : Nat → Prop} {s s' : St} (inv : Inv S P s) (hc : 
 
 /-- a notification none of whose `_set_dirty` subscribers is clean: only user handlers are called (they
     record) -/
-theorem notifyLoop_quiet (rec : Rec) (k : Key) (old new : Option Int) (xs : List Sub) :
+theorem notifyLoop_quiet (rec : Rec) (k : Key) (old new : V) (xs : List Sub) :
     ∀ (s : St), (∀ h, s.progs h = []) →
     (∀ c, Sub.dirty c ∈ xs → ∃ x, s.comps c = some x ∧ x.dirty = true) →
     ∃ lg, notifyLoop rec k old new xs s = some ({ s with log := s.log ++ lg }, .ok ()) := by
@@ -784,10 +784,10 @@ theorem notifyLoop_quiet (rec : Rec) (k : Key) (old new : Option Int) (xs : List
         rw [hh]
         simp
 
-theorem notifyT_quiet {S P : Nat → Prop} (rec : Rec) (k : Key) (old new : Option Int) {s : St} (w : Stat s)
+theorem notifyT_quiet {S P : Nat → Prop} (rec : Rec) (k : Key) (old new : V) {s : St} (w : Stat s)
     (inv : Inv S P s)
     (hq : ∀ c, Sub.dirty c ∈ (s.regs k.1).subs k.2 .change → ∃ x, s.comps c = some x ∧ x.dirty = true) :
-    ∃ s', notifyT rec k old new s = some (s', .ok 0) ∧ Inv S P s' ∧ StaticEq s s' ∧ s'.comps = s.comps ∧
+    ∃ s', notifyT rec k old new s = some (s', .ok none) ∧ Inv S P s' ∧ StaticEq s s' ∧ s'.comps = s.comps ∧
       s'.store = s.store ∧ s'.cur = s.cur ∧ s'.dead = s.dead := by
   obtain ⟨lg, h⟩ := notifyLoop_quiet rec k old new ((s.regs k.1).subs k.2 .change) s w.progs hq
   unfold notifyT
@@ -824,7 +824,7 @@ theorem kindAt_names {s : St} {k : Key} {kd : Kind} (h : s.kindAt k = some kd) :
     unfold Reg.names; exact List.mem_map.mpr ⟨d, hd, hn⟩
 
 /-- `_add_parent` on a declared attribute, called by a Computed that exists, does not raise -/
-theorem addParent_ok {s : St} (w : Stat s) {p : Nat} {x : Comp} (hx : s.comps p = some x) {r : PRef} {v : Int} {k : Key}
+theorem addParent_ok {s : St} (w : Stat s) {p : Nat} {x : Comp} (hx : s.comps p = some x) {r : PRef} {v : V} {k : Key}
     (hk : s.keyOf r = some k) (hn : k.2 ∈ (s.regs k.1).names) {s' : St} {e : Err}
     (h : addParent s p r v = (s', .err e)) : False := by
   unfold addParent at h
@@ -838,25 +838,25 @@ theorem addParent_ok {s : St} (w : Stat s) {p : Nat} {x : Comp} (hx : s.comps p 
 
 /-- the denotation of a pure function in state `s`: Observables are looked up in the store, Computables are
     evaluated by running *their* function (not by looking at any cache) -/
-inductive Den (s : St) : Tree → Int → Prop
-  | ret (v : Int) : Den s (.ret v) v
-  | read (k : Key) (cont : Int → Tree) (v : Int) (h : Den s (cont (s.store k)) v) : Den s (.read k cont) v
-  | readC (c : Nat) (cont : Int → Tree) (x : Comp) (a v : Int) (hx : s.comps c = some x) (ha : Den s x.tree a)
+inductive Den (s : St) : Tree → V → Prop
+  | ret (v : V) : Den s (.ret v) v
+  | read (k : Key) (cont : V → Tree) (v : V) (h : Den s (cont (s.store k)) v) : Den s (.read k cont) v
+  | readC (c : Nat) (cont : V → Tree) (x : Comp) (a v : V) (hx : s.comps c = some x) (ha : Den s x.tree a)
       (h : Den s (cont a) v) : Den s (.readC c cont) v
 
 /-- … and "the function would raise if evaluated right now": it arrives at a `fail` node, or at the read of a
     Computable whose function would raise -/
 inductive DenFail (s : St) : Tree → Prop
   | fail : DenFail s .fail
-  | read (k : Key) (cont : Int → Tree) (h : DenFail s (cont (s.store k))) : DenFail s (.read k cont)
-  | readCFail (c : Nat) (cont : Int → Tree) (x : Comp) (hx : s.comps c = some x) (h : DenFail s x.tree) :
+  | read (k : Key) (cont : V → Tree) (h : DenFail s (cont (s.store k))) : DenFail s (.read k cont)
+  | readCFail (c : Nat) (cont : V → Tree) (x : Comp) (hx : s.comps c = some x) (h : DenFail s x.tree) :
       DenFail s (.readC c cont)
-  | readC (c : Nat) (cont : Int → Tree) (x : Comp) (a : Int) (hx : s.comps c = some x) (ha : Den s x.tree a)
+  | readC (c : Nat) (cont : V → Tree) (x : Comp) (a : V) (hx : s.comps c = some x) (ha : Den s x.tree a)
       (h : DenFail s (cont a)) : DenFail s (.readC c cont)
-  | readCUndef (c : Nat) (cont : Int → Tree) (hx : s.comps c = none) : DenFail s (.readC c cont)
+  | readCUndef (c : Nat) (cont : V → Tree) (hx : s.comps c = none) : DenFail s (.readC c cont)
 
 /-- both only look at the Observables' values and at the functions -/
-theorem Den.congr {s s' : St} (hst : s'.store = s.store) (hse : StaticEq s s') {t : Tree} {v : Int} (h : Den s t v) :
+theorem Den.congr {s s' : St} (hst : s'.store = s.store) (hse : StaticEq s s') {t : Tree} {v : V} (h : Den s t v) :
     Den s' t v := by
   induction h with
   | ret v => exact .ret v
@@ -878,7 +878,7 @@ theorem DenFail.congr {s s' : St} (hst : s'.store = s.store) (hse : StaticEq s s
     exact .readC c cont x' a hx' (by rw [ht]; exact ha.congr hst hse) ih
   | readCUndef c cont hx => exact .readCUndef c cont ((hse.comps c).1.mpr hx)
 
-theorem pathR_den {s : St} {t : Tree} {ps : List (PRef × Int)} {v : Int} (hp : PathR t ps v)
+theorem pathR_den {s : St} {t : Tree} {ps : List (PRef × V)} {v : V} (hp : PathR t ps v)
     (hobs : ∀ k x, (PRef.obs k, x) ∈ ps → s.store k = x)
     (hcomp : ∀ c x, (PRef.comp c, x) ∈ ps → ∃ y, s.comps c = some y ∧ Den s y.tree x) : Den s t v := by
   induction hp with
@@ -924,12 +924,12 @@ theorem clean_den {S : Nat → Prop} {s : St} (inv : Inv S NoP s) :
 
 /-- the remembered value differs from the present one (for a Computable: from its up-to-date value, or its
     function raises now) -/
-def Stale (s : St) : PRef × Int → Prop
+def Stale (s : St) : PRef × V → Prop
   | (.obs k, v) => s.store k ≠ v
   | (.comp c, v) => ∃ y, s.comps c = some y ∧ ((y.dirty = false ∧ y.value ≠ some v) ∨ DenFail s y.tree)
 
 theorem Stale.keep {s s' : St} (hst : s'.store = s.store) (hse : StaticEq s s')
-    (hk : ∀ q x, s.comps q = some x → x.dirty = false → s'.comps q = some x) {e : PRef × Int} (h : Stale s e) :
+    (hk : ∀ q x, s.comps q = some x → x.dirty = false → s'.comps q = some x) {e : PRef × V} (h : Stale s e) :
     Stale s' e := by
   obtain ⟨p, v⟩ := e
   cases p with
@@ -950,7 +950,7 @@ def Justified (x : Comp) (s' : St) (y : Comp) : Prop :=
 /-! ### reading a Computable: the induction -/
 
 /-- what `Computable.__get__` of `c` guarantees when it returns `v` -/
-structure PostGet (S : Nat → Prop) (c : Nat) (s s' : St) (v : Int) : Prop where
+structure PostGet (S : Nat → Prop) (c : Nat) (s s' : St) (v : V) : Prop where
   inv : Inv S NoP s'
   stat : StaticEq s s'
   store : s'.store = s.store
@@ -985,7 +985,7 @@ structure IH (rec : Rec) : Prop where
   notify : ∀ k o n s, rec (.notify k o n) s = none ∨ ∃ rec', rec (.notify k o n) s = notifyT rec' k o n s
 
 theorem Current.keep {s s' : St} (hst : s'.store = s.store)
-    (hk : ∀ q x, s.comps q = some x → x.dirty = false → s'.comps q = some x) {p : PRef} {v : Int}
+    (hk : ∀ q x, s.comps q = some x → x.dirty = false → s'.comps q = some x) {p : PRef} {v : V}
     (h : Current NoP s p v) : Current NoP s' p v := by
   refine Current.of_eq hst ?_ h
   intro c y hy w hw hd
@@ -1001,7 +1001,7 @@ theorem Stat.notSlot {s : St} (w : Stat s) {k : Key} (hk : s.kindAt k = some .ob
 /-- the function body of Computed `c` (a pure tree), evaluated with `CURRENT_COMPUTED = c`: whether it returns or
     raises, `ps` = what it read on the way -/
 theorem evalTree_spec {rec : Rec} (ih : IH rec) (c : Nat) (S : Nat → Prop) (hSc : ¬ S c) (hSlt : ∀ q, S q → c < q) :
-    ∀ (t : Tree), Pure t → ∀ (s s' : St) (r : R) (x : Comp) (ps0 : List (PRef × Int)),
+    ∀ (t : Tree), Pure t → ∀ (s s' : St) (r : R) (x : Comp) (ps0 : List (PRef × V)),
     Ranked c t → ObsKeys (fun k => s.kindAt k = some .obs) t → Stat s → Inv (fun q => S q ∨ q = c) NoP s →
     s.cur = some c → s.comps c = some x → (∀ e, e ∈ ps0 ↔ e ∈ x.parents) →
     (∀ e ∈ ps0, Current NoP s e.1 e.2) → evalTree rec t s = some (s', r) →
@@ -1168,7 +1168,7 @@ theorem evalTree_spec {rec : Rec} (ih : IH rec) (c : Nat) (S : Nat → Prop) (hS
 
 /-- the dirty pre-check of Computed `c` over its remembered parents `ps`: it never raises (G12 repaired) -/
 theorem precheck_spec {rec : Rec} (ih : IH rec) (c : Nat) (S : Nat → Prop) (hSlt : ∀ q, S q → c < q) :
-    ∀ (ps : List (PRef × Int)) (s s' : St) (r : Except Err Bool),
+    ∀ (ps : List (PRef × V)) (s s' : St) (r : Except Err Bool),
     (∀ e ∈ ps, (∀ c', e.1 = .comp c' → c' < c) ∧ ∃ k, s.keyOf e.1 = some k) → Stat s → Inv S NoP s → s.cur = none →
     precheck rec ps s = some (s', r) →
     ∃ b, r = .ok b ∧ Inv S NoP s' ∧ StaticEq s s' ∧ s'.store = s.store ∧ s'.cur = none ∧ s'.dead = s.dead ∧
@@ -1263,7 +1263,7 @@ theorem precheck_spec {rec : Rec} (ih : IH rec) (c : Nat) (S : Nat → Prop) (hS
 
 
 /-- the evaluated Computed `c` stores its value, becomes clean and leaves the stack -/
-theorem Inv.finish {S : Nat → Prop} {s : St} {c : Nat} {x : Comp} {v : Int} {ps : List (PRef × Int)}
+theorem Inv.finish {S : Nat → Prop} {s : St} {c : Nat} {x : Comp} {v : V} {ps : List (PRef × V)}
     {saved : Option Nat} (inv : Inv (fun q => S q ∨ q = c) NoP s) (hSc : ¬ S c) (hx : s.comps c = some x)
     (hf : x.first = false) (hp : PathR x.tree ps v) (hmem : ∀ e, e ∈ ps ↔ e ∈ x.parents)
     (hcurr : ∀ e ∈ x.parents, Current NoP s e.1 e.2) (hsaved : ∀ p, saved = some p → S p) :
@@ -1353,7 +1353,7 @@ theorem Inv.finish {S : Nat → Prop} {s : St} {c : Nat} {x : Comp} {v : Int} {p
 
 /-- the function of the evaluated Computed `c` raised: `c` will run it again next time (`_first = True`), stays dirty and
     leaves the stack; what it read before the failure stays remembered (and subscribed) until then -/
-theorem Inv.fail {S : Nat → Prop} {s : St} {c : Nat} {x : Comp} {ps : List (PRef × Int)}
+theorem Inv.fail {S : Nat → Prop} {s : St} {c : Nat} {x : Comp} {ps : List (PRef × V)}
     {saved : Option Nat} (inv : Inv (fun q => S q ∨ q = c) NoP s) (hSc : ¬ S c) (hx : s.comps c = some x)
     (hp : Prefix x.tree ps) (hmem : ∀ e, e ∈ ps ↔ e ∈ x.parents) (hsaved : ∀ p, saved = some p → S p) :
     Inv S NoP { (s.setComp c { x with first := true }) with cur := saved } := by
@@ -1647,7 +1647,7 @@ theorem callC_spec {rec : Rec} (ih : IH rec) (c : Nat) (S : Nat → Prop) (hSc :
         obtain ⟨v0, ps, hv0, hpath, hmem⟩ := (inv.evald c x hx hSc).2 hf'
         injection h with h; injection h with h1 h2
         subst h1
-        have hr : r = .ok v0 := by rw [← h2, hv0]
+        have hr : r = .ok v0 := by rw [← h2, hv0]; rfl
         subst hr
         have invf : Inv S NoP (s1.setComp c { x with dirty := false }) :=
           i1.update_comp hc1 rfl rfl (fun h' => absurd h' hSc)
@@ -1705,8 +1705,8 @@ theorem getC_spec {rec : Rec} (ih : IH rec) (c : Nat) (S : Nat → Prop) (hSc : 
             (∀ q, s1.cur ≠ some q → s2.comps q = s1.comps q) →
             (∀ p xp, s1.cur = some p → s1.comps p = some xp →
               ∃ own, s2.comps p = some { xp with parents := insertParent own (.comp c) new xp.parents }) →
-            (if some new ≠ x.value then
-              match rec (.notify (x.owner, x.name) x.value (some new)) s2 with
+            (if new ≠ x.value.join then
+              match rec (.notify (x.owner, x.name) x.value.join new) s2 with
               | none => none
               | some (s3, .err e) => some (s3, .err e)
               | some (s3, .ok _) => some (s3, .ok new)
@@ -1754,12 +1754,12 @@ theorem getC_spec {rec : Rec} (ih : IH rec) (c : Nat) (S : Nat → Prop) (hSc : 
             · intro q y hy hd; rw [hc3]; exact hkeep2 q y hy hd
             · intro q hq hne; rw [hc3]; exact hab2 q hq hne
             · intro p xp hp hxp; rw [hc3]; exact hpar2' p xp hp hxp
-          by_cases hch : some new ≠ x.value
+          by_cases hch : new ≠ x.value.join
           · rw [if_pos hch] at h
             have hxd : x.dirty = true := by
               cases hxd : x.dirty with
               | true => rfl
-              | false => exact absurd (hcl1 hxd).symm hch
+              | false => exact absurd (by rw [hcl1 hxd]; rfl) hch
             -- every `_set_dirty` subscribed to `c` belongs to a dirty Computed: the notification is quiet
             have hquiet : ∀ q, Sub.dirty q ∈ (s2.regs x.owner).subs x.name .change →
                 ∃ y, s2.comps q = some y ∧ y.dirty = true := by
@@ -1798,10 +1798,10 @@ theorem getC_spec {rec : Rec} (ih : IH rec) (c : Nat) (S : Nat → Prop) (hSc : 
                     rcases hzd with hzd | hzd
                     · simp [hxd] at hzd
                     · exact hzd
-            rcases ih.notify (x.owner, x.name) x.value (some new) s2 with hnone | ⟨rec', hrec'⟩
+            rcases ih.notify (x.owner, x.name) x.value.join new s2 with hnone | ⟨rec', hrec'⟩
             · simp [hnone] at h
             · obtain ⟨s3, hn3, i3, e3, hc3, hs3, hcu3, hd3⟩ :=
-                notifyT_quiet rec' (x.owner, x.name) x.value (some new) w2 inv2 hquiet
+                notifyT_quiet rec' (x.owner, x.name) x.value.join new w2 inv2 hquiet
               rw [hrec', hn3] at h
               simp only at h
               injection h with h; injection h with h1 h2; subst h1 h2
@@ -1913,13 +1913,13 @@ theorem Inv.drop_P {P : Nat → Prop} {s : St} {c0 : Nat} (inv : Inv NoS (fun q 
       exact hall c x k hx hd hk hm
 
 structure CascadeIH (rec : Rec) : Prop where
-  notify : ∀ (k : Key) (o n : Option Int) (s s' : St) (r : R) (P : Nat → Prop), Stat s → Inv NoS P s →
+  notify : ∀ (k : Key) (o n : V) (s s' : St) (r : R) (P : Nat → Prop), Stat s → Inv NoS P s →
     rec (.notify k o n) s = some (s', r) →
-    r = .ok 0 ∧ Inv NoS P s' ∧ StaticEq s s' ∧ s'.store = s.store ∧ s'.cur = s.cur ∧ s'.dead = s.dead ∧
+    r = .ok none ∧ Inv NoS P s' ∧ StaticEq s s' ∧ s'.store = s.store ∧ s'.cur = s.cur ∧ s'.dead = s.dead ∧
     SameSubs s s' ∧ Dirtied s s' ∧
     (∀ c, Sub.dirty c ∈ (s.regs k.1).subs k.2 .change → ∃ y, s'.comps c = some y ∧ y.dirty = true)
 
-theorem notifyLoop_cascade {rec : Rec} (ih : CascadeIH rec) (k : Key) (old new : Option Int) :
+theorem notifyLoop_cascade {rec : Rec} (ih : CascadeIH rec) (k : Key) (old new : V) :
     ∀ (xs : List Sub) (s s' : St) (r : Except Err Unit) (P : Nat → Prop), Stat s → Inv NoS P s →
     (∀ c, Sub.dirty c ∈ xs → ∃ x, s.comps c = some x) →
     (∀ c, Sub.dirty c ∈ xs → Sub.dirty c ∈ (s.regs k.1).subs k.2 .change) →
@@ -1967,7 +1967,7 @@ theorem notifyLoop_cascade {rec : Rec} (ih : CascadeIH rec) (k : Key) (old new :
           refine ⟨fun hf => ?_, fun hf => e2 hf⟩
           have := (e1 hf).1; simp [hcd'] at this
         have sed : StaticEq s (s.setComp c { cx with dirty := true }) := StaticEq.of_setComp hcx rfl rfl rfl
-        cases hn : rec (.notify (cx.owner, cx.name) cx.value none) (s.setComp c { cx with dirty := true }) with
+        cases hn : rec (.notify (cx.owner, cx.name) cx.value.join none) (s.setComp c { cx with dirty := true }) with
         | none => simp [hn] at h
         | some res =>
           obtain ⟨s1, r1⟩ := res
@@ -2028,9 +2028,9 @@ theorem notifyLoop_cascade {rec : Rec} (ih : CascadeIH rec) (k : Key) (old new :
         exact ⟨h1, h2, sel.trans h3, h4, h5, h6, h7, h8, fun c' hc' => h9 c' (by simpa using hc')⟩
 
 
-theorem notifyT_cascade {rec : Rec} (ih : CascadeIH rec) (k : Key) (old new : Option Int) {s s' : St} {r : R}
+theorem notifyT_cascade {rec : Rec} (ih : CascadeIH rec) (k : Key) (old new : V) {s s' : St} {r : R}
     {P : Nat → Prop} (w : Stat s) (inv : Inv NoS P s) (h : notifyT rec k old new s = some (s', r)) :
-    r = .ok 0 ∧ Inv NoS P s' ∧ StaticEq s s' ∧ s'.store = s.store ∧ s'.cur = s.cur ∧ s'.dead = s.dead ∧
+    r = .ok none ∧ Inv NoS P s' ∧ StaticEq s s' ∧ s'.store = s.store ∧ s'.cur = s.cur ∧ s'.dead = s.dead ∧
     SameSubs s s' ∧ Dirtied s s' ∧
     (∀ c, Sub.dirty c ∈ (s.regs k.1).subs k.2 .change → ∃ y, s'.comps c = some y ∧ y.dirty = true) := by
   unfold notifyT at h
@@ -2074,16 +2074,16 @@ theorem cascade_exec (f : Nat) : CascadeIH (exec f) := by
   | succ f ih => exact ⟨fun k o n s s' r P w inv h => notifyT_cascade ih k o n w inv h⟩
 
 /-- a top-level assignment `owner.name = v` -/
-theorem assign_spec (f : Nat) {k : Key} {v : Int} {s s' : St} {r : R} (w : Stat s) (inv : Inv NoS NoP s)
+theorem assign_spec (f : Nat) {k : Key} {v : V} {s s' : St} {r : R} (w : Stat s) (inv : Inv NoS NoP s)
     (hcur : s.cur = none) (h : exec f (.assign k v) s = some (s', r)) :
-    r = .ok 0 ∧ Inv NoS NoP s' ∧ StaticEq s s' ∧ s'.cur = none ∧
+    r = .ok none ∧ Inv NoS NoP s' ∧ StaticEq s s' ∧ s'.cur = none ∧
     s'.store = (fun k' => if k' = k then v else s.store k') ∧
     (∀ c x, s.comps c = some x → ∃ x', s'.comps c = some x' ∧ x'.evals = x.evals) := by
   cases f with
   | zero => simp [exec] at h
   | succ f =>
     simp only [exec, stepF, assignT, hcur, Option.isSome_none, Bool.false_eq_true, false_and, if_false] at h
-    cases hn : exec f (.notify k (some (s.store k)) (some v)) s with
+    cases hn : exec f (.notify k (s.store k) v) s with
     | none => simp [hn] at h
     | some res =>
       obtain ⟨s1, r1⟩ := res
@@ -2252,7 +2252,7 @@ structure Good (s : St) : Prop where
 
 inductive OpOK (s : St) : Op → Prop
   | define (c o n : Nat) (t : Tree) (h : DefineOK s c o n t) : OpOK s (.define c o n t)
-  | assign (k : Key) (v : Int) : OpOK s (.assign k v)
+  | assign (k : Key) (v : V) : OpOK s (.assign k v)
   | read (c : Nat) : OpOK s (.read c)
   | observe (k : Key) (h : Nat) : OpOK s (.observe k h)
   | unobserve (k : Key) (h : Nat) : OpOK s (.unobserve k h)
@@ -2285,7 +2285,7 @@ theorem read_spec_all (fuel : Nat) {s s' : St} {c : Nat} {r : R} (g : Good s)
     · exact Or.inr ⟨y, hy, hyf, hyd, hdf⟩
 
 /-- reading a Computable at top level -/
-theorem read_spec (fuel : Nat) {s s' : St} {c : Nat} {v : Int} (g : Good s)
+theorem read_spec (fuel : Nat) {s s' : St} {c : Nat} {v : V} (g : Good s)
     (h : exec fuel (.readC c) s = some (s', .ok v)) :
     Good s' ∧ s'.store = s.store ∧ StaticEq s s' ∧
     ∃ x, s'.comps c = some x ∧ x.dirty = false ∧ x.value = some v ∧ Den s' x.tree v := by
